@@ -622,3 +622,189 @@ Proof.
     + rewrite W1. eapply stop_tok_mono; [|exact Hstop]. apply rank_le_top_bp. lia.
     + apply rank_lt_p_ok. exact Hrb.
 Qed.
+
+(* ================================================================ *)
+(** * Theorems                                                       *)
+
+(* enough fuel: the model's entry point runs with 2 * (number of tokens) + 10 *)
+Lemma fuel_bound l : spine l + need l + 2 <= 2 * List.length (render l).
+Proof.
+  induction l as [a ws|w1 e IH w2|o e IH|o a IHa ws b IHb]; cbn [spine need render].
+  - simpl. lia.
+  - simpl List.length. rewrite !app_length. simpl List.length. lia.
+  - simpl List.length. lia.
+  - rewrite !app_length. simpl List.length. rewrite !app_length. lia.
+Qed.
+
+Theorem pratt_layered E l st rest0 fuel :
+  Lay 0 l -> atoms_ok E l ->
+  rest st = render l ++ rest0 ->
+  (is_wss st = true -> tight_ok l = true) ->
+  (is_wss st = false -> is_ws (look0 rest0) = false) ->
+  stop_tok (is_wss st) lowestPrec (look0 rest0) ->
+  2 * List.length (render l) <= fuel ->
+  parse_expr E fuel lowestPrec st = Some (Some (tree_of l), consume l st) /\
+  rest (consume l st) = rest0 /\ wss (consume l st) = wss st /\ errs (consume l st) = errs st.
+Proof.
+  intros HL Hat Hr Ht Hf Hstop Hfuel.
+  destruct (Lay_wl _ _ HL) as [Hwl _].
+  pose proof (fuel_bound l) as Hb.
+  destruct (consume_spec l st rest0 Hr Ht Hf) as (A & B & C).
+  split; [|auto].
+  assert (Hex : exists k, fuel = S (spine l + S k) /\ need l <= S k) by (exists (fuel - spine l - 2); lia).
+  destruct Hex as (k & -> & Hk).
+  rewrite (pratt_general E l st rest0 lowestPrec (S k)); auto.
+  - rewrite expr_loop_stop; [reflexivity|].
+    unfold cur. rewrite A. unfold is_wss. rewrite B. exact Hstop.
+  - eapply stop_tok_mono; [|exact Hstop]. rewrite lowest_zero. lia.
+  - apply p_ok_lowest.
+Qed.
+
+(* the tree depends on the derivation only, not on its layout *)
+Lemma tree_of_erase l : tree_of l = stree (erase l).
+Proof. induction l; simpl; congruence. Qed.
+
+Theorem layout_irrelevant E l1 l2 st1 st2 r1 r2 fuel1 fuel2 :
+  erase l1 = erase l2 ->
+  Lay 0 l1 -> Lay 0 l2 -> atoms_ok E l1 -> atoms_ok E l2 ->
+  rest st1 = render l1 ++ r1 -> rest st2 = render l2 ++ r2 ->
+  (is_wss st1 = true -> tight_ok l1 = true) -> (is_wss st2 = true -> tight_ok l2 = true) ->
+  (is_wss st1 = false -> is_ws (look0 r1) = false) -> (is_wss st2 = false -> is_ws (look0 r2) = false) ->
+  stop_tok (is_wss st1) lowestPrec (look0 r1) -> stop_tok (is_wss st2) lowestPrec (look0 r2) ->
+  2 * List.length (render l1) <= fuel1 -> 2 * List.length (render l2) <= fuel2 ->
+  exists t s1 s2,
+    parse_expr E fuel1 lowestPrec st1 = Some (Some t, s1) /\ rest s1 = r1 /\
+    parse_expr E fuel2 lowestPrec st2 = Some (Some t, s2) /\ rest s2 = r2 /\ t = stree (erase l1).
+Proof.
+  intros He L1 L2 A1 A2 R1 R2 T1 T2 F1 F2 S1 S2 U1 U2.
+  destruct (pratt_layered E l1 st1 r1 fuel1) as (P1 & Q1 & _); auto.
+  destruct (pratt_layered E l2 st2 r2 fuel2) as (P2 & Q2 & _); auto.
+  exists (tree_of l1), (consume l1 st1), (consume l2 st2).
+  rewrite P1, P2. repeat split; auto.
+  - rewrite !tree_of_erase, He. reflexivity.
+  - apply tree_of_erase.
+Qed.
+
+(* left associativity at every level, and precedence between levels *)
+Lemma Lay_0_of n l : Lay n l -> Lay 0 l.
+Proof. induction n; auto. intro H. apply IHn. apply Lay_up. exact H. Qed.
+
+Lemma Lay_le n m l : n <= m -> Lay m l -> Lay n l.
+Proof. induction 1 as [|m Hle IH]; auto. intro HL. apply IH. apply Lay_up. exact HL. Qed.
+
+Lemma Lay_atom_any n a ws : n <= rank_primary -> Lay n (LAtom a ws).
+Proof. intro H. eapply Lay_le; [exact H|apply Lay_atom]. Qed.
+
+Lemma Lay_left_assoc o1 o2 a b c w1 w2 wa wb wc :
+  rank o1 = rank o2 ->
+  Lay 0 (LBin o2 (LBin o1 (LAtom a wa) w1 (LAtom b wb)) w2 (LAtom c wc)).
+Proof.
+  intro H. pose proof (rank_bounds o1). pose proof (rank_bounds o2).
+  apply (Lay_0_of (rank o2)). apply Lay_bin.
+  - rewrite <- H. apply Lay_bin; apply Lay_atom_any; unfold rank_primary; lia.
+  - apply Lay_atom_any; unfold rank_primary; lia.
+Qed.
+
+Lemma Lay_tighter_right o1 o2 a b c w1 w2 wa wb wc :
+  rank o1 < rank o2 ->
+  Lay 0 (LBin o1 (LAtom a wa) w1 (LBin o2 (LAtom b wb) w2 (LAtom c wc))).
+Proof.
+  intro H. pose proof (rank_bounds o1). pose proof (rank_bounds o2).
+  apply (Lay_0_of (rank o1)). apply Lay_bin.
+  - apply Lay_atom_any; unfold rank_primary; lia.
+  - apply (Lay_le _ (rank o2)); [lia|]. apply Lay_bin; apply Lay_atom_any; unfold rank_primary; lia.
+Qed.
+
+Theorem left_assoc E o1 o2 a b c w1 w2 wa wb wc st rest0 fuel :
+  rank o1 = rank o2 ->
+  let l := LBin o2 (LBin o1 (LAtom a wa) w1 (LAtom b wb)) w2 (LAtom c wc) in
+  atoms_ok E l ->
+  rest st = render l ++ rest0 ->
+  (is_wss st = true -> tight_ok l = true) ->
+  (is_wss st = false -> is_ws (look0 rest0) = false) ->
+  stop_tok (is_wss st) lowestPrec (look0 rest0) ->
+  2 * List.length (render l) <= fuel ->
+  exists st', parse_expr E fuel lowestPrec st =
+    Some (Some (TBin (binop_tok o2) (TBin (binop_tok o1) (atom_tree a) (atom_tree b)) (atom_tree c)), st')
+    /\ rest st' = rest0.
+Proof.
+  intros H l Hat Hr Ht Hf Hs Hfu.
+  destruct (pratt_layered E l st rest0 fuel) as (P & Q & _); auto.
+  { apply Lay_left_assoc. exact H. }
+  exists (consume l st). split; [exact P|exact Q].
+Qed.
+
+Theorem tighter_binds_first E o1 o2 a b c w1 w2 wa wb wc st rest0 fuel :
+  rank o1 < rank o2 ->
+  let l := LBin o1 (LAtom a wa) w1 (LBin o2 (LAtom b wb) w2 (LAtom c wc)) in
+  atoms_ok E l ->
+  rest st = render l ++ rest0 ->
+  (is_wss st = true -> tight_ok l = true) ->
+  (is_wss st = false -> is_ws (look0 rest0) = false) ->
+  stop_tok (is_wss st) lowestPrec (look0 rest0) ->
+  2 * List.length (render l) <= fuel ->
+  exists st', parse_expr E fuel lowestPrec st =
+    Some (Some (TBin (binop_tok o1) (atom_tree a) (TBin (binop_tok o2) (atom_tree b) (atom_tree c))), st')
+    /\ rest st' = rest0.
+Proof.
+  intros H l Hat Hr Ht Hf Hs Hfu.
+  destruct (pratt_layered E l st rest0 fuel) as (P & Q & _); auto.
+  { apply Lay_tighter_right. exact H. }
+  exists (consume l st). split; [exact P|exact Q].
+Qed.
+
+(* ================================================================ *)
+(** * End to end: an inferred declaration  x := e  NL                *)
+
+Theorem decl_stmt_parses E x w0 w1 l fuel :
+  Lay 0 l -> atoms_ok E l ->
+  let toks := {| ttype := T_IDENT; tlit := x |} :: wsl w0 ++ mk T_DECLARE :: wsl w1 ++ render l ++ [mk T_NL] in
+  2 * List.length toks <= fuel ->
+  exists st', parse_stmt_expr E fuel 2 toks = Some (Some (tree_of l), st') /\
+              rest st' = [mk T_NL] /\ is_at_eol st' = true /\ errs st' = [].
+Proof.
+  intros HL Hat toks Hfu. unfold parse_stmt_expr. simpl Nat.iter.
+  set (s0 := init_state toks).
+  assert (W0 : is_wss s0 = false) by reflexivity.
+  destruct (advance_tok s0 {| ttype := T_IDENT; tlit := x |} w0 (mk T_DECLARE :: wsl w1 ++ render l ++ [mk T_NL]))
+    as (A1 & B1 & C1 & _); try reflexivity.
+  { rewrite W0. discriminate. }
+  set (s1 := advance s0) in *.
+  destruct (advance_tok s1 (mk T_DECLARE) w1 (render l ++ [mk T_NL])) as (A2 & B2 & C2 & _); auto.
+  { unfold is_wss. rewrite B1. discriminate. }
+  { intros _. apply render_head_not_ws. }
+  set (s2 := advance s1) in *.
+  assert (W2 : is_wss s2 = false) by (unfold is_wss; rewrite B2, B1; reflexivity).
+  rewrite (toplevel_is_expr E _ _ s2 l _ Hat A2).
+  destruct (pratt_layered E l s2 [mk T_NL] fuel) as (P & Q & R & S); auto.
+  - rewrite W2. discriminate.
+  - right; left. reflexivity.
+  - unfold toks in Hfu. simpl List.length in Hfu. rewrite !app_length in Hfu. simpl List.length in Hfu.
+    rewrite !app_length in Hfu. lia.
+  - exists (consume l s2). rewrite P. repeat split; auto.
+    + unfold is_at_eol, cur_t, cur. rewrite Q. reflexivity.
+    + rewrite S, C2, C1. reflexivity.
+Qed.
+
+(* ================================================================ *)
+(** * The parseSlice defect and its correction                       *)
+
+(* with the proposed fix the closing bracket of a slice is consumed without
+   skipping whitespace, exactly like the closing bracket of an index expression *)
+Lemma slice_close_fixed E st : e_fix_slice E = true -> slice_close E st = advance_wss st.
+Proof. unfold slice_close. intros ->. reflexivity. Qed.
+
+Lemma slice_close_fixed_keeps_ws E st t r :
+  e_fix_slice E = true -> rest st = t :: mk T_WS :: r -> cur (slice_close E st) = mk T_WS.
+Proof. intros H Hr. rewrite slice_close_fixed by exact H. unfold cur, advance_wss; simpl. rewrite Hr. reflexivity. Qed.
+
+(* as the code is: inside the pushed "not whitespace sensitive" context the whitespace is swallowed *)
+Lemma slice_close_swallows_ws E st t t2 r b w :
+  e_fix_slice E = false -> rest st = t :: mk T_WS :: t2 :: r -> wss st = false :: b :: w -> is_ws t2 = false ->
+  cur (slice_close E st) = t2.
+Proof.
+  intros H Hr Hw Ht2. unfold slice_close. rewrite H.
+  destruct (advance_tok st t true (t2 :: r)) as (A & _); auto.
+  - unfold is_wss. rewrite Hw. discriminate.
+  - unfold cur. rewrite A. reflexivity.
+Qed.
